@@ -188,13 +188,50 @@ func (p *Program) Pkg(rel string) *ssa.Package {
 	return p.SSA.Package(pk.Types)
 }
 
+// TypeHints / FuncHints make anchors on UNEXPORTED names tolerant to renames: when rel.name no longer exists, the unique
+// named type of the package that declares the hinted methods (resp. the unique package-level function or method with
+// the hinted signature) is taken instead. A rename of an unexported identifier is not a behaviour change.
+var TypeHints = map[string][]string{}
+var FuncHints = map[string]string{} // "rel.name" -> types.Signature string without receiver, e.g. "func(net.Addr, net.Addr) bool"
+
 // Func returns package-level function rel.name or nil.
 func (p *Program) Func(rel, name string) *ssa.Function {
 	pk := p.Pkg(rel)
 	if pk == nil {
 		return nil
 	}
-	return pk.Func(name)
+	if f := pk.Func(name); f != nil {
+		return f
+	}
+	want, ok := FuncHints[rel+"."+name]
+	if !ok {
+		return nil
+	}
+	var found *ssa.Function
+	n := 0
+	for _, m := range pk.Members {
+		f, isF := m.(*ssa.Function)
+		if !isF || f.Signature.Recv() != nil || f.Synthetic != "" {
+			continue
+		}
+		if types.TypeString(f.Signature, func(tp *types.Package) string { return tp.Name() }) == want {
+			found = f
+			n++
+		}
+	}
+	if n == 1 {
+		return found
+	}
+	return nil
+}
+
+// declaredMethods lists the names of the methods declared (not promoted) on n or *n.
+func (p *Program) declaredMethods(n *types.Named) map[string]bool {
+	out := map[string]bool{}
+	for i := 0; i < n.NumMethods(); i++ {
+		out[n.Method(i).Name()] = true
+	}
+	return out
 }
 
 // Type returns the named type rel.name or nil.
@@ -203,13 +240,49 @@ func (p *Program) Type(rel, name string) *types.Named {
 	if pk == nil {
 		return nil
 	}
-	m := pk.Members[name]
-	t, ok := m.(*ssa.Type)
+	if t, ok := pk.Members[name].(*ssa.Type); ok {
+		n, _ := t.Type().(*types.Named)
+		return n
+	}
+	hint, ok := TypeHints[rel+"."+name]
 	if !ok {
 		return nil
 	}
-	n, _ := t.Type().(*types.Named)
-	return n
+	var found *types.Named
+	cnt := 0
+	for _, m := range pk.Members {
+		t, isT := m.(*ssa.Type)
+		if !isT {
+			continue
+		}
+		n, isN := t.Type().(*types.Named)
+		if !isN {
+			continue
+		}
+		if _, isIface := n.Underlying().(*types.Interface); isIface {
+			continue
+		}
+		dm := p.declaredMethods(n)
+		all := true
+		for _, h := range hint {
+			neg := len(h) > 0 && h[0] == '!'
+			if neg {
+				if dm[h[1:]] {
+					all = false
+				}
+			} else if !dm[h] {
+				all = false
+			}
+		}
+		if all {
+			found = n
+			cnt++
+		}
+	}
+	if cnt == 1 {
+		return found
+	}
+	return nil
 }
 
 // Method returns the method of rel.typ (pointer or value receiver, whichever declares it) or nil.
